@@ -27,6 +27,7 @@ CONSTANTS
   RWCounts,    \* RowWise: borehole counts the field generator may return
   RWTail,      \* RowWise: number of spacings in the exhaustive tail (10 or 11)
   RWDev,       \* RowWise: bound on non-default oracle answers in the tail (state-space control)
+  RWMonotone,  \* RowWise: the generator's count is non-increasing in the spacing (state-space control; FALSE for recorded real runs)
   Fixed        \* set of defect ids modelled as repaired: "F3" (re-simulate after sizing), "F8", "F10" (covers F12), "F13"
 
 VARIABLES
@@ -410,7 +411,7 @@ Gen(f, n) == Ask(<<f, "cnt">>, n, RWCounts)
 R_gen ==   \* upper and lower fields and their excess at maximum height
   /\ pc = "R_gen"
   /\ \E nu \in RWCounts, nl \in RWCounts, vu \in Vals, vl \in Vals :
-       /\ nl <= nu
+       /\ (RWMonotone => nl <= nu)
        /\ memo' = (<<Fs(0, 0), "cnt">> :> nu) @@ (<<Fs(RWGrid, 0), "cnt">> :> nl)
                   @@ (<<Fs(0, 0), "max">> :> vu) @@ (<<Fs(RWGrid, 0), "max">> :> vl)
        /\ log' = log \o << [e |-> "eval", f |-> Fs(0, 0), h |-> Hmax, v |-> vu, n |-> nu,
@@ -439,7 +440,7 @@ R_bis ==   \* spacing bisection; the field count is non-increasing in the spacin
   /\ pc = "R_bis"
   /\ IF it < MaxIter
      THEN \E n \in RWCounts, v \in Vals :
-            /\ memo[<<Fs(sLow, 0), "cnt">>] <= n /\ n <= memo[<<Fs(sHigh, 0), "cnt">>]
+            /\ (RWMonotone => (memo[<<Fs(sLow, 0), "cnt">>] <= n /\ n <= memo[<<Fs(sHigh, 0), "cnt">>]))
             /\ LET f == Fs(sMid, 0) IN
                /\ (<<f, "cnt">> \in DOMAIN memo => n = memo[<<f, "cnt">>])
                /\ (<<f, "max">> \in DOMAIN memo => v = memo[<<f, "max">>])
@@ -472,8 +473,8 @@ R_tail ==
                 h == CASE oc = "Bracketed" -> r + Code(f) [] oc = "ClampLow" -> Hmin [] oc = "ClampHigh" -> Hmax [] OTHER -> Hmid
                 dev == IF tk = 0 \/ TailDefault(n, v, lo) THEN 0 ELSE 1
             IN
-            /\ n <= memo[<<Fs(sHigh, 0), "cnt">>]
-            /\ (tk > 0 => n <= memo[<<Fs(sHigh, tk - 1), "cnt">>])
+            /\ (RWMonotone => n <= memo[<<Fs(sHigh, 0), "cnt">>])
+            /\ ((RWMonotone /\ tk > 0) => n <= memo[<<Fs(sHigh, tk - 1), "cnt">>])
             /\ (<<f, "cnt">> \in DOMAIN memo => n = memo[<<f, "cnt">>])
             /\ (<<f, "max">> \in DOMAIN memo => v = memo[<<f, "max">>])
             /\ (oc = "Bracketed" \/ r = SetMin(RootLevels))
